@@ -62,6 +62,13 @@ func anchorMatches(ins ssa.Instruction, anchor string) bool {
 		if cc.IsInvoke() {
 			return cc.Method.Name() == name
 		}
+		if p, isParam := cc.Value.(*ssa.Parameter); isParam {
+			// call through a function-valued parameter, named by the parameter
+			return p.Name() == name
+		}
+		if fv, isFV := cc.Value.(*ssa.FreeVar); isFV {
+			return fv.Name() == name
+		}
 		if callee := cc.StaticCallee(); callee != nil {
 			full := callee.RelString(nil)
 			short := FuncName(callee)
